@@ -78,11 +78,11 @@ func checkC06(c *Check) {
 			}
 		}
 		// the scan's OK server result
-		_, inst, _ := findClosureLoop(pg)
+		_, inst, _ := findScanLoop(pg)
 		if inst != nil {
 			if sc := rootOfInst(inst); sc != nil && sc.Fn != nil {
 				if spg := c.pgOf(sc.Name); spg != nil {
-					E, _, _ := findClosureLoop(spg)
+					E, _, _ := findScanLoop(spg)
 					ok := returnsWhere(spg, func(s *PState) bool {
 						cl, k := resultClass(s.Ret[0].T)
 						return k && cl == resOK
